@@ -94,6 +94,8 @@ class Ans:
 
 # ---------------------------------------------------------------- cases
 
+IMPL_ONLY = '<impl-only>'   # Case(model=IMPL_ONLY): no model line; the case is decided by its oracle alone (must have one)
+
 class Case:
     __slots__ = ('op', 'impl', 'model', 'compare', 'oracle', 'nontrivial', 'tag', 'profile', 'note', 'always_oracle')
     def __init__(self, op, impl, model=None, compare=None, oracle=None, nontrivial=True, tag=None, profile='debug',
@@ -202,9 +204,9 @@ def _limits_model():
 
 def _limits_impl():
     # the implementation keeps the default stack, so that a runaway recursion dies at once
-    # (stack overflow abort) instead of filling the memory; bounded address space as a backstop
+    # (stack overflow abort) instead of filling the memory; address space bounded at 4 GB as a backstop
     try:
-        resource.setrlimit(resource.RLIMIT_AS, (8 << 30, 8 << 30))
+        resource.setrlimit(resource.RLIMIT_AS, (4 << 30, 4 << 30))
     except Exception:
         pass
 
